@@ -826,3 +826,15 @@ SPECS += [
     ("C05", "extension-removed-with-rstrip", "rope/refactor/rename.py",
      replace_expr_where("Rename._is_renaming_a_module", _is("resource.name[:-3]"), _expr("resource.name.rstrip('.py')")), ["R05.23"]),
 ]
+
+# one key at a time (fix 1642e82)
+def _starred_add(tree):
+    f = find_func(tree, "_FunctionInformationCollector._Global")
+    if f is None:
+        return False
+    f.body = [ast.parse("self.globals_.add(*node.names)").body[0]]
+    ast.fix_missing_locations(f)
+    return True
+
+
+SPECS += [("C03", "all-names-handed-to-add-at-once", "rope/refactor/extract.py", _starred_add, ["R03.21"])]
